@@ -52,6 +52,9 @@ func judge4(r *mon.Rec, src string, b []byte) {
 		if e1 != nil {
 			return
 		}
+		if len(b)%3 == 0 { // logged before it is passed on
+			_, _ = m1.Summary(), m1.String()
+		}
 		b1 = m1.ToBytes()
 		m2, e2 = dhcpv4.FromBytes(b1)
 		if e2 != nil {
@@ -118,6 +121,9 @@ func judge6(r *mon.Rec, src string, b []byte) {
 			return
 		}
 		t1 = proj.M6(m1).String()
+		if len(b)%3 == 0 { // a relay or server that logs what it received before passing it on (the library's own debug loggers do)
+			_, _ = m1.Summary(), m1.String()
+		}
 		b1 = m1.ToBytes()
 		m2, e2 = dhcpv6.FromBytes(b1)
 		if e2 != nil {
